@@ -48,8 +48,8 @@ type c09fdPipe struct {
 	Handed  []c09fdHand    `json:"handed"`
 	Commits map[string]int `json:"commits"` // offset -> commits seen by the input
 	Timeout bool           `json:"timeout,omitempty"`
-	Outs    int            `json:"outs"`    // events that reached the main output
-	InSeq   []uint64       `json:"in_seq"`  // what Pipeline.In returned for the events
+	Outs    int            `json:"outs"`   // events that reached the main output
+	InSeq   []uint64       `json:"in_seq"` // what Pipeline.In returned for the events
 }
 
 type c09fdRes struct {
@@ -118,7 +118,7 @@ func (p *c09fdFailOutput) Start(_ pipeline.AnyConfig, params *pipeline.OutputPlu
 	)
 	p.batcher.Start(context.Background())
 }
-func (p *c09fdFailOutput) Stop()                 { p.batcher.Stop() }
+func (p *c09fdFailOutput) Stop() { p.batcher.Stop() }
 func (p *c09fdFailOutput) Out(e *pipeline.Event) {
 	p.book.mu.Lock()
 	p.book.pipes[p.name].Outs++
